@@ -233,7 +233,7 @@ def production_scale_findings(ck):
                     f.write(os.urandom(1 << 20))
             e = run("encp 1 0 4 %s %s %s %s" % (key.hex(), seed.hex(), pin, penc))
             if e != "OK -":
-                add(["C01", "C02"], "encryption of 40 MiB with production constants did not succeed: " + e, n=n)
+                add(["C01", "C02"] + (["C04"] if e in ("HANG", "DEADLOCK", "LIVELOCK") else []), "encryption of 40 MiB with production constants did not succeed: " + e, n=n)
             else:
                 F = open(penc, "rb").read()
                 tag = pyhmac.new(key, F[48:], "sha1").digest()
@@ -263,7 +263,7 @@ def production_scale_findings(ck):
             e = run("encp 0 1 16 %s %s %s %s" % (key.hex(), b"seed".hex(), pin, penc))
             want_len = 48 + 20 * 16 + 16 * (n // 16 + 1)
             if e != "OK -":
-                add(["C01", "C02"], "encryption of 4 GiB + 1 MiB + 5 bytes did not succeed: " + e, n=n)
+                add(["C01", "C02"] + (["C04"] if e in ("HANG", "DEADLOCK", "LIVELOCK") else []), "encryption of 4 GiB + 1 MiB + 5 bytes did not succeed: " + e, n=n, T=16)
             elif os.path.getsize(penc) != want_len:
                 add(["C02"], "file of a %d-byte plaintext has length %d, documented %d (a 32-bit offset / length wrapped?)" % (n, os.path.getsize(penc), want_len), n=n, T=16, cmode=0, hmode=1, key=key.hex())
             else:
@@ -296,7 +296,7 @@ def production_scale_findings(ck):
                     add(["C01"], "verification of the freshly encrypted 4 GiB file failed: " + v, n=n)
                 dd = run("decp 16 %s %s %s" % (key.hex(), penc, pout))
                 if dd != "OK -" or os.path.getsize(pout) != n:
-                    add(["C01"], "decryption of the 4 GiB file: %s, %d bytes (expected %d)" % (dd, os.path.getsize(pout) if os.path.exists(pout) else -1, n), n=n)
+                    add(["C01"] + (["C04"] if dd in ("HANG", "DEADLOCK", "LIVELOCK") else []), "decryption of the 4 GiB file: %s, %d bytes (expected %d)" % (dd, os.path.getsize(pout) if os.path.exists(pout) else -1, n), n=n)
                 else:
                     nz = False
                     with open(pout, "rb") as f:
